@@ -1,4 +1,26 @@
 from props.client_props import gen_c04
-PROP = {"id": "C04", "stages": [{"name": "client", "target": "h_client", "gen": gen_c04, "shard": 12}], "trivial_tags": [],
+
+from props.e2egen import *
+from props.e2egen import line as eline
+
+def gen_e2e(ctx):
+    """uploads over real sockets, plain and TLS 1.2 / 1.3 (TLS close-notify before the TCP close)"""
+    rng = ctx["rng"]
+    for ver in (13, 12):
+        for tls in (1, 0):
+            for mode in "pa":
+                for rfc in (0, 1):
+                    for t in ("I", "A"):
+                        c = cfg_str(mode=mode, rfc=rfc, ttype=t, ver=ver, tls=tls, prop="C04", resume=rng.below(2))
+                        ops = [connect(tls=bool(tls))]
+                        for size in (0, 1, 8192, 8193, 24593, 100000):
+                            if t == "A" and size > 9000: continue
+                            pl = "g%d.%d" % (rng.below(1000), size) if t == "I" else "h" + rng.bytes(size, alphabet=b"ab\r\n\r\nxyz ").hex()
+                            ops.append(put(mode, rfc, payload=pl, verb=rng.choice(["STOR", "STOU", "APPE"])))
+                        yield eline(c, ops)
+    ctx["scopes"].append("real-socket uploads (plain, TLS 1.2, TLS 1.3) x four methods x both types x sizes 0..100000")
+
+PROP = {"id": "C04", "stages": [{"name": "client", "target": "h_client", "gen": gen_c04, "shard": 12},
+                   {"name": "e2e", "target": "h_e2e", "gen": gen_e2e, "shard": 4}], "trivial_tags": [],
         "rule": 'binary uploads STOR/STOU/APPE: payload sizes around the 8192-byte block x four methods x IPv4/IPv6 x source chop patterns (1 byte .. full block); bytes and end-of-file seen by the peer, order of data-socket close vs. completion read from libc interposition. distinct = distinct scenario lines.',
         "assumptions": ["in-memory control transport (a socket_base subclass) stands in for the TCP control socket; data connections are real loopback TCP", "oracle values (read sizes, kernel-chosen ports, connect results) are taken from the implementation run"]}
